@@ -38,7 +38,8 @@ BAD_SYSTEMS = ['iec', 'si', 'Mixed', '', 'binary', None, 'IEC ', 7]
 MAGS_OK = ['0', '1', '7', '10', '512', '1023', '1024', '1025', '999', '1000', '65536',
            '0.5', '1.5', '.5', '0.1', '0.07', '2.75', '12.125', '0.001', '3.14159', '.0001',
            '00012', '1.0', '9007199254740993', '123456789012345678901234567890', '0.333333333333333333',
-           '99999999999999999999.5', '4.000', '1106', '18446744073709551615', '0.0']
+           '99999999999999999999.5', '4.000', '1106', '18446744073709551615', '0.0',
+           '.0000001', '3.0000004', '0.0000000003', '1.9999999', '7.000000000001', '1023.9999999999']
 MAGS_BAD = ['', '.', '1.', '1..5', '1,5', '1e3', '1E3', '0x10', ' 1', '1 ', '--1', '+-1', '1_000',
             'abc', '1.5.2', 'inf', 'nan', '-', '+', '1 .5']
 SIGNS = ['', '+', '-']
@@ -154,7 +155,11 @@ def evaluate(ctx, case):
                 ctx.clause('int-result-float-tolerance')
                 # K10 regime: weaker oracle (float tolerance + 1)
                 if got != want:
-                    if abs(Fraction(got) - exact) <= abs(exact) * Fraction(1, 2 ** 50) + 1:
+                    # K10 regime: the result must still be the ceiling of some value within the float
+                    # pipeline's error bound (relative 2^-50) of the exact quantity
+                    eps = Fraction(1, 2 ** 50)
+                    lo_v, hi_v = sorted((exact * (1 - eps), exact * (1 + eps)))
+                    if math.ceil(lo_v) <= got <= math.ceil(hi_v):
                         ctx.fail('int-result', case,
                                  {'text': text, 'got': got, 'want': want}, known='K10')
                     else:
@@ -237,7 +242,13 @@ def qemu_cases(rng, n):
         elif k == 5:
             e = rng.randrange(0, 7)
             m = rng.randrange(1, 10)
-            out.append(dict(field=field, spelling='%de+%02d' % (m, e), want=m * 10 ** e, cls='exponent'))
+            if rng.random() < 0.5:
+                out.append(dict(field=field, spelling='%de+%02d' % (m, e), want=m * 10 ** e, cls='exponent'))
+            else:
+                u, _e = rng.choice(long_units)
+                nbytes = rng.choice([rng.getrandbits(45), 1051721728, 0, 1])
+                out.append(dict(field=field, spelling='%de+%02d %s (%d bytes)' % (m, e, u, nbytes), want=nbytes,
+                                cls='exponent+explicit-bytes'))
         elif k == 6:
             out.append(dict(field=field, spelling=rng.choice(['None', 'unavailable']), want=0, cls='none'))
         else:
@@ -272,7 +283,7 @@ def run(ctx):
             emit(dict(kind='stb', sign=text_parts[0], mag=text_parts[1], prefix=text_parts[2],
                       unit=text_parts[3], system=text_parts[4], return_int=rint))
     # full grid
-    mags = MAGS_OK if not ctx.quick else MAGS_OK[:18]
+    mags = MAGS_OK if not ctx.quick else MAGS_OK[:18] + MAGS_OK[-6:]
     for sign, mag, prefix, unit, system, rint in itertools.product(
             SIGNS, mags, ALL_PREFIXES, UNITS, SYSTEMS, (False, True)):
         emit(dict(kind='stb', sign=sign, mag=mag, prefix=prefix, unit=unit, system=system,
@@ -291,8 +302,12 @@ def run(ctx):
     rng = ctx.rng('mags')
     n = ctx.pick(12000, 600000)
     for i in range(n):
-        k = rng.randrange(6)
-        if k == 0:
+        k = rng.randrange(7)
+        if k == 6:     # tiny fractional excess / deficit: the ceiling must not be rounded away
+            mag = '%d.%s%d' % (rng.choice([0, 0, 1, 3, 1023, rng.getrandbits(12)]), '0' * rng.randrange(5, 12), rng.randrange(1, 10))
+            if rng.random() < 0.3:
+                mag = '%d.%s' % (rng.randrange(0, 2000), '9' * rng.randrange(6, 12))
+        elif k == 0:
             mag = str(rng.getrandbits(rng.choice([8, 16, 31, 53, 64, 90])))
         elif k == 1:
             mag = '%d.%0*d' % (rng.getrandbits(16), rng.randrange(1, 8), rng.getrandbits(20))
